@@ -2987,11 +2987,13 @@ class sptensor:
             assert False, "Sptensor multiply requires two tensors of the same shape."
 
         if isinstance(other, ttb.sptensor):
-            idxSelf = tt_intersect_rows(self.subs, other.subs)
-            idxOther = tt_intersect_rows(other.subs, self.subs)
+            if self.nnz == 0 or other.nnz == 0:
+                return ttb.sptensor(shape=self.shape)
+            # Pair the stored entries of both operands by subscript
+            matched, idxOther = tt_ismember_rows(self.subs, other.subs)
             return ttb.sptensor(
-                self.subs[idxSelf],
-                self.vals[idxSelf] * other.vals[idxOther],
+                self.subs[matched],
+                self.vals[matched] * other.vals[idxOther[matched]],
                 self.shape,
             )
         if isinstance(other, ttb.tensor):
